@@ -917,6 +917,20 @@ func (e *Exec) exec1(fr *Frame, ins ssa.Instruction) *GoPanic {
 	case *ssa.MakeSlice:
 		n := e.get(fr, x.Len).(*Term)
 		c := e.get(fr, x.Cap).(*Term)
+		if e.allocLimit > 0 && !n.IsConst() && n.sort.K == KBV {
+			// allocation obligation first: one fork "larger than the limit" instead of enumerating sizes
+			esz := e.eng.sizes.Sizeof(x.Type().Underlying().(*types.Slice).Elem())
+			lim := e.ctx.Const(n.sort.W, uint64(e.allocLimit/esz))
+			var tooBig *Term
+			if isSigned(x.Len.Type()) {
+				tooBig = e.ctx.BAnd(e.ctx.Cmp(OpSlt, lim, n), e.ctx.Cmp(OpSle, e.ctx.Const(n.sort.W, 0), n))
+			} else {
+				tooBig = e.ctx.Cmp(OpUlt, lim, n)
+			}
+			if e.branch(tooBig, ins) {
+				panic(pathEnd{"alloc", fmt.Sprintf("allocation whose size is taken from the input exceeds %d bytes at %s", e.allocLimit, e.posOf(ins))})
+			}
+		}
 		ni := e.concretizeInt(n, x.Len.Type(), "make-len")
 		ci := ni
 		if c != n {
